@@ -89,10 +89,10 @@ pub const W_TEXTS: &[&str] = &[
     "Ünï 😀 teh tset, an apple.",
     "She is an an doctor.",
     "He said \"hello and went teh way.",
-    "tset Tset teh",
+    "tset Tset teh paris",
     "i am going to to the colour store",
 ];
-pub const W_WORDS: &[&[&str]] = &[&["tset"], &["Tset", "teh"], &[]];
+pub const W_WORDS: &[&[&str]] = &[&["tset", "paris"], &["Tset", "teh"], &[]];
 pub const W_CFGS: &[&str] = &[
     r#"{"SpellCheck": false}"#,
     r#"{"SpellCheck": true, "AnA": false, "NoSuchRule": true}"#,
